@@ -22,6 +22,43 @@ def compile_with_sites(E):
     return h, out
 
 
+def _default_follows_op(body, d, nil_local):
+    """d is `if op == NotEqual { nil } else { false }` / the equivalent match, or a local bound to such an expression"""
+    e = strip(d)
+    nm = local_name(e)
+    if nm:
+        for st in exprs(body, "SLet"):
+            if st["pat"].get("name") == nm and "init" in st:
+                return _default_follows_op(body, st["init"], nil_local)
+        return False
+    if e.get("k") == "If" and "else" in e:
+        c = strip(e["cond"])
+        if c.get("k") == "Binary" and c["op"] in ("Eq", "Ne"):
+            is_ne = last_seg(def_path(c["r"]) or def_path(c["l"]) or "") == "NotEqual"
+            t, f = tail(e["then"]), tail(e["else"])
+            if c["op"] == "Ne":
+                t, f = f, t
+            return is_ne and local_name(t) == nil_local and is_lit(f, False)
+    if e.get("k") == "Match":
+        okn = okf = True
+        seen_ne = False
+        for a in e["arms"]:
+            vs = [last_seg(v) for v in pat_variants(a["pat"])]
+            t = tail(a["body"])
+            if vs == ["NotEqual"]:
+                seen_ne = local_name(t) == nil_local
+            else:
+                okf = okf and is_lit(t, False)
+        return seen_ne and okf
+    if e.get("k") == "Binary" and e["op"] == "And":
+        # (op == NotEqual) && nil
+        sides = [strip(e["l"]), strip(e["r"])]
+        has_nil = any(local_name(x) == nil_local for x in sides)
+        has_cmp = any(x.get("k") == "Binary" and x["op"] == "Eq" and last_seg(def_path(x["r"]) or def_path(x["l"]) or "") == "NotEqual" for x in sides)
+        return has_nil and has_cmp
+    return False
+
+
 def rule_default(E, R, rule="R01-default", only=None, floor=12):
     """absent left-hand side: `default` is literal false everywhere except the `!=` arm, where it is the
     scheme's nil-not-equal behaviour. `only`: set of ComparisonOpExpr variant names to report on."""
@@ -49,7 +86,13 @@ def rule_default(E, R, rule="R01-default", only=None, floor=12):
         d = args[2]
         n += 1
         label = "default of %s%s" % ("/".join(outer), ("[" + "/".join(inner) + "]") if inner else "")
-        if inner and "NotEqual" in inner:
+        if outer == ["Ordering"] and not inner:
+            # one site for all six operators: the default must follow the operator
+            good = _default_follows_op(h["body"], d, nil_local)
+            R.check(good, rule, CMP_COMPILE, "default of Ordering[all operators] follows the operator",
+                    "a site shared by all ordering operators must pass the nil-not-equal setting for `!=` and false otherwise; "
+                    "a constant default makes `absent != x` disagree with the scheme's setting", c["sp"])
+        elif inner and "NotEqual" in inner:
             good = nil_local is not None and local_name(d) == nil_local and inner == ["NotEqual"]
             R.check(good, rule, CMP_COMPILE, label, "`!=` on an absent value must yield the scheme's nil-not-equal setting "
                     "(local bound from Scheme::nil_not_equal_behavior())", c["sp"])
